@@ -93,7 +93,11 @@ def verdict (d : DSt) (line : String) : DSt × String :=
     let still := missing.filter fun k => d.pending.contains k
     let late := d.pending.filter fun k => d.kept.contains k && covered k
     let d3 : DSt := { d2 with pending := missing.filter fun k => !d.pending.contains k }
-    if !still.isEmpty then
+    let uncov := C09.kvOf iw "uncovered"
+    if C09.kvOf iw "overlap" == "1" then (d3, "FAIL the reprovide schedule holds two prefix-related prefixes")
+    else if uncov != "" && uncov != "[]" then
+      (d3, s!"FAIL after a whole window online kept keys {uncov} are covered by no scheduled prefix: they will not be reprovided")
+    else if !still.isEmpty then
       (d3, s!"FAIL key {still.headD 0} kept for reproviding was not re-advertised to all of its nearest peers in two consecutive windows of one interval plus the allowed delay")
     else if !zombie.isEmpty then
       (d3, s!"FAIL key {(zombie.headD (0, 0)).1} is still advertised in a later cycle although it is no longer kept")
